@@ -71,6 +71,9 @@ def body(tid, kind, arg=None):
             esim.crash(esim.my_proc(), arg if arg is not None else 3, how="crash")
             esim.S.step("task.dead")          # never scheduled again
             raise esim.SimCrash()
+        if kind == "pickler":
+            from loky.backend.reduction import get_loky_pickler_name
+            return ["pickler", tid, get_loky_pickler_name()]
         if kind == "pid":
             return ["pid", tid, esim.my_proc(), INIT.get(esim.my_proc())]
         raise AssertionError("unknown kind %r" % kind)
